@@ -512,7 +512,7 @@ func c25Gen(rt *rapid.T) c25Case {
 	idGen := rapid.IntRange(0, c25IDs-1)
 	opGen := rapid.Custom(func(rt *rapid.T) c25Op {
 		var op c25Op
-		op.Kind = rapid.SampledFrom([]string{"add", "add", "add", "add", "remove", "remove", "setmin", "setmin", "pop", "query"}).Draw(rt, "kind")
+		op.Kind = rapid.SampledFrom([]string{"add", "add", "add", "add", "add", "add", "remove", "remove", "remove", "setmin", "setmin", "pop", "query", "query"}).Draw(rt, "kind")
 		switch op.Kind {
 		case "add":
 			n := rapid.IntRange(1, 4).Draw(rt, "n")
@@ -522,7 +522,7 @@ func c25Gen(rt *rapid.T) c25Case {
 		case "remove":
 			op.ID = idGen.Draw(rt, "id")
 		case "setmin":
-			op.T = rapid.OneOf(rapid.Int64Range(0, 8), rapid.SampledFrom([]int64{math.MinInt64, -1, 0, 1 << 40, (1 << 40) + 1, math.MaxInt64 - 1, math.MaxInt64})).Draw(rt, "t")
+			op.T = rapid.OneOf(rapid.Int64Range(0, 8), rapid.Int64Range(1, 4), rapid.Int64Range(1, 3), rapid.SampledFrom([]int64{math.MinInt64, -1, 0, 1 << 40, (1 << 40) + 1, math.MaxInt64 - 1, math.MaxInt64})).Draw(rt, "t")
 		case "query":
 			op.IDs = rapid.SliceOfN(idGen, 0, 6).Draw(rt, "ids")
 			op.Marker = rapid.SliceOfN(rapid.IntRange(0, 5), 0, 2).Draw(rt, "marker")
@@ -530,11 +530,11 @@ func c25Gen(rt *rapid.T) c25Case {
 		}
 		return op
 	})
-	return c25Case{Ops: rapid.SliceOfN(opGen, 1, 40).Draw(rt, "ops")}
+	return c25Case{Ops: rapid.SliceOfN(opGen, 4, 60).Draw(rt, "ops")}
 }
 
 func TestC25(t *testing.T) {
-	st := vstat.New(t, "C25", "op lists (1..40 ops over 12 ids: batched add with expiries 0..6 / 2^40 / max, remove, set-min, pop-min, membership queries with pre-marked positions and stop flag) interpreted against emap.EMap, eheap.ExpiryHeap and heap.Heap (min and max), each compared after every op with a map id->expiry model (first expiry wins; EMap ignores expiry 0), followed by a full drain; non-trivial = a removal of a non-minimum entry followed by a set-min that evicts something, or >=3 ids sharing one expiry in both EMap and ExpiryHeap; distinct by the op list")
+	st := vstat.New(t, "C25", "op lists (4..60 ops over 12 ids: batched add with expiries 0..6 / 2^40 / max, remove, set-min, pop-min, membership queries with pre-marked positions and stop flag) interpreted against emap.EMap, eheap.ExpiryHeap and heap.Heap (min and max), each compared after every op with a map id->expiry model (first expiry wins; EMap ignores expiry 0), followed by a full drain; non-trivial = a removal of a non-minimum entry followed by a set-min that evicts something, or >=3 ids sharing one expiry in both EMap and ExpiryHeap; distinct by the op list")
 	rapid.Check(t, func(rt *rapid.T) {
 		c := c25Gen(rt)
 		vstat.Run(rt, st, c, func() error { return c25Run(c, st) })
